@@ -2094,8 +2094,10 @@ return string'''
 
 MIX_PRINT_SKELETON = '''if TEST0:
     if TEST1:
-        return RET0
-    return RET1
+        if TEST2:
+            return RET0
+        return RET1
+    return RET2
 return "."'''
 
 
@@ -2160,13 +2162,14 @@ def translate_printers(token_py):
         raise Unsupported("System.generate_string")
     mfn = gs("mixture.py", "Mixture")
     sk, mts, mrs = skeleton_r(mfn)
-    if not same_skeleton(sk, MIX_PRINT_SKELETON) or [ast.unparse(t) for t in mts] != ["extension", "self.absolute_mass is None"]:
+    if not same_skeleton(sk, MIX_PRINT_SKELETON) or [ast.unparse(t) for t in mts] != ["extension", "self.absolute_mass is None", "self.relative_mass is None"]:
         raise Unsupported("Mixture.generate_string")
-    menv = Env({}, {}, {"{self.relative_mass}": ("(fprint rel)", "str"), "{self.absolute_mass}": ("(fprint mass)", "str")})
+    menv = Env({}, {}, {"{self.relative_mass}": ("(fprint rel)", "str"), "{self.absolute_mass}": ("(fprint mass)", "str"), "self._raw_text": ("raw", "str")})
     out += [
-        "(* Mixture.generate_string: the percentage if no absolute mass is known, else the absolute mass *)",
-        f"Definition mx_print_rel (fprint : num -> str) (rel : num) : str := {menv.term(mrs[0])[0]}.",
-        f"Definition mx_print_abs (fprint : num -> str) (mass : num) : str := {menv.term(mrs[1])[0]}.",
+        "(* Mixture.generate_string: the text as written if no mass is known at all, the percentage if no absolute mass is known, else the absolute mass *)",
+        f"Definition mx_print_none (raw : str) : str := {menv.term(mrs[0])[0]}.",
+        f"Definition mx_print_rel (fprint : num -> str) (rel : num) : str := {menv.term(mrs[1])[0]}.",
+        f"Definition mx_print_abs (fprint : num -> str) (mass : num) : str := {menv.term(mrs[2])[0]}.",
     ]
     return "\n".join(out) + "\n"
 
@@ -2337,6 +2340,13 @@ def translate_agraph(sag_py):
               {"graph_bd.is_compatible(other_bd)": ("(is_compatible d o)", "bool"), "bd_lhs.is_compatible(bd_rhs)": ("(is_compatible dl dr)", "bool")})
     def T(fn, k):
         return env.truth(tests[fn][k])
+    # the values assigned to terminal_ok / exclude_transition_into_terminal in _add_transition_bonds
+    tfn = _method(_class(ast.parse(open(sag_py).read()), "StochasticAtomGraph"), "_add_transition_bonds", [])
+    _, _, tv = skeleton_v(tfn, {"terminal_ok", "exclude_transition_into_terminal"})
+    if [ast.unparse(v) for _, v in tv] != ["invert_terminal.is_compatible(bd_rhs)", "invert_terminal.is_compatible(bd_lhs)", "bd_rhs_idx < len(element_rhs.repeat_tokens)"]:
+        raise Unsupported("_add_transition_bonds: the terminal / end-group tests changed: " + "; ".join(ast.unparse(v) for _, v in tv)[:200])
+    tenv = Env({"bd_rhs_idx": ("(Z.of_nat tj)", "Z"), "len(element_rhs.repeat_tokens)": ("(Z.of_nat nr)", "Z")}, {},
+               {"invert_terminal.is_compatible(bd_rhs)": ("(is_compatible inv dr)", "bool"), "invert_terminal.is_compatible(bd_lhs)": ("(is_compatible inv dl)", "bool")})
     out = [
         "(* generated by harness/translate_sys.py from stochastic_atom_graph.py -- do not edit *)",
         "From Coq Require Import List ZArith QArith Bool.",
@@ -2351,6 +2361,10 @@ def translate_agraph(sag_py):
         f"Definition sa_list_positive (p : Q) : bool := {T('_add_stochastic_bonds', 3)}.",
         f"Definition sa_weight_edge (d o : descr) : bool := {T('_add_stochastic_bonds', 4)}.",
         f"Definition sa_into_repeat (tj nr : nat) : bool := {T('_add_stochastic_bonds', 5)}.",
+        "(* _add_transition_bonds: inv = the descriptor written from _create_compatible_bond_text of the neighbouring object's terminal *)",
+        f"Definition sa_right_ok (inv dr : descr) : bool := {tenv.truth(tv[0][1])}.",
+        f"Definition sa_left_ok (inv dl : descr) : bool := {tenv.truth(tv[1][1])}.",
+        f"Definition sa_enters_repeat (tj nr : nat) : bool := {tenv.truth(tv[2][1])}.",
     ]
     return "\n".join(out) + "\n"
 
